@@ -171,4 +171,244 @@ theorem exec_sticky (cfg : Cfg) (hs : cfg.sticky = false) : ∀ (s : Stmt) (st :
     · rw [if_neg hc] at hn; rw [if_neg hc, if_neg hc]; exact ihe st h hn
   | ret => intro st h _; exact ⟨rfl, ⟨h.good, h.eof, h.pos, h.short⟩⟩
 
+/-! ### the ghost flag agrees on both kinds of stream; a sticky stream that came back short is not good -/
+
+theorem sread_sticky_good (cfg : Cfg) (hs : cfg.sticky = false) (st : St) (n : Nat) (hn : 0 < n) (hg : st.good = true) :
+    st.sread cfg.asSticky n = st.sread cfg n := by
+  unfold St.sread
+  have hn0 : n ≠ 0 := by omega
+  simp [Cfg.asSticky, hs, hg, hn0]
+
+theorem syncLoop_sticky_eq (cfg : Cfg) (hs : cfg.sticky = false) (sigF : Nat) : ∀ (fuel tmp : Nat) (st : St), StreamOK st →
+    syncLoop cfg.asSticky sigF fuel tmp st = syncLoop cfg sigF fuel tmp st := by
+  intro fuel
+  induction fuel with
+  | zero => intro tmp st _; rfl
+  | succ n ih =>
+    intro tmp st h
+    unfold syncLoop
+    rw [sread_sticky_good cfg hs st 4 (by omega) h.good]
+    have hfull : (st.sread cfg 4).1.length < 4 ∨ (StreamOK (st.sread cfg 4).2 ∧ 4 ≤ (st.sread cfg 4).2.pos) := by
+      unfold St.sread
+      simp only [hs, Bool.false_and, Bool.false_eq_true, if_false]
+      rw [if_neg (by omega)]
+      by_cases hl : st.pos + 4 ≤ st.inp.length
+      · rw [if_pos hl]; exact Or.inr ⟨⟨rfl, rfl, hl, h.short⟩, by simp⟩
+      · rw [if_neg hl]; left; simp; omega
+    generalize st.sread cfg 4 = r at hfull
+    obtain ⟨got, st1⟩ := r
+    simp only at hfull ⊢
+    split
+    · rfl
+    · split
+      · rfl
+      · next _ h2 =>
+        have hok : StreamOK st1 ∧ 4 ≤ st1.pos := by
+          rcases hfull with hf | hf
+          · simp [hf] at h2
+          · exact hf
+        have hb : ∀ k, k ≤ 3 → StreamOK (st1.sback k) := fun k hk =>
+          ⟨hok.1.good, hok.1.eof, by simp only [St.sback]; have := hok.1.pos; omega, hok.1.short⟩
+        split
+        · exact ih _ _ (hb 3 (by omega))
+        · split
+          · exact ih _ _ (hb 2 (by omega))
+          · split
+            · exact ih _ _ (hb 1 (by omega))
+            · exact ih _ _ hok.1
+
+/-- from a good stream, a run sets the ghost flag on the sticky stream iff it sets it on the in-memory stream -/
+theorem exec_sticky_short (cfg : Cfg) (hs : cfg.sticky = false) : ∀ (s : Stmt) (st : St), StreamOK st →
+    (s.exec cfg.asSticky st).short = (s.exec cfg st).short := by
+  intro s
+  induction s with
+  | skip => intro st _; rfl
+  | seq a b iha ihb =>
+    intro st h
+    cases hsa : (a.exec cfg st).short with
+    | false =>
+      obtain ⟨e1, ok1⟩ := exec_sticky cfg hs a st h hsa
+      simp only [Stmt.exec]
+      rw [e1]
+      by_cases hh : (a.exec cfg st).halt = .none
+      · rw [if_pos hh, if_pos hh]; exact ihb _ ok1
+      · rw [if_neg hh, if_neg hh]
+    | true =>
+      have hs2 : (a.exec cfg.asSticky st).short = true := by rw [iha st h, hsa]
+      have r1 : ((Stmt.seq a b).exec cfg st).short = true := by
+        simp only [Stmt.exec]; split
+        · exact exec_short_mono cfg b _ hsa
+        · exact hsa
+      have r2 : ((Stmt.seq a b).exec cfg.asSticky st).short = true := by
+        simp only [Stmt.exec]; split
+        · exact exec_short_mono _ b _ hs2
+        · exact hs2
+      rw [r1, r2]
+  | sync sigF => intro st h; simp only [Stmt.exec]; rw [syncLoop_sticky_eq cfg hs sigF _ 0 st h]
+  | rd f w =>
+    intro st h
+    simp only [Stmt.exec]
+    by_cases hw : w = 0
+    · subst hw
+      unfold St.sread
+      simp [Cfg.asSticky, hs, h.good, h.pos]
+    · rw [sread_sticky_good cfg hs st w (by omega) h.good]
+  | rdBuf f n =>
+    intro st h
+    simp only [Stmt.exec]
+    by_cases hl : (st.obj.buf f).length < n.eval st.obj
+    · rw [if_pos hl, if_pos hl]
+    · rw [if_neg hl, if_neg hl]
+      by_cases hw : n.eval st.obj = 0
+      · rw [hw]
+        unfold St.sread
+        simp [Cfg.asSticky, hs, h.good, h.pos]
+      · rw [sread_sticky_good cfg hs st _ (by omega) h.good]
+  | resize f ew n => intro st _; rfl
+  | seekg n =>
+    intro st h
+    simp only [Stmt.exec]
+    rw [(sseek_sticky cfg hs st _ h).1]
+  | wr f w => intro st _; rfl
+  | wrBuf f n => intro st _; rfl
+  | skipp n => intro st _; rfl
+  | assign f e => intro st _; rfl
+  | ite c t e iht ihe =>
+    intro st h
+    simp only [Stmt.exec]
+    by_cases hc : c.eval st.obj ≠ 0
+    · rw [if_pos hc, if_pos hc]; exact iht st h
+    · rw [if_neg hc, if_neg hc]; exact ihe st h
+  | ret => intro st _; rfl
+
+/-- on the sticky stream: OK, or not good with the ghost flag set -/
+def OkOrBad (st : St) : Prop := StreamOK st ∨ (st.good = false ∧ st.short = true)
+
+theorem sread_okOrBad (cfg : Cfg) (st : St) (n : Nat) (h : OkOrBad st) : OkOrBad (st.sread cfg.asSticky n).2 := by
+  unfold St.sread
+  simp only [Cfg.asSticky, Bool.true_and, Bool.not_true, Bool.false_eq_true, and_false, if_false]
+  rcases h with h | h
+  · rw [if_neg (by simp [h.good])]
+    by_cases hl : st.pos + n ≤ st.inp.length
+    · rw [if_pos hl]; exact Or.inl ⟨rfl, rfl, hl, h.short⟩
+    · rw [if_neg hl]; exact Or.inr ⟨rfl, rfl⟩
+  · rw [if_pos (by simp [h.1])]; exact Or.inr ⟨h.1, by simp [h.2]⟩
+
+theorem sseek_okOrBad (cfg : Cfg) (st : St) (n : Nat) (h : OkOrBad st) : OkOrBad (st.sseek cfg.asSticky n) := by
+  unfold St.sseek
+  simp only [Cfg.asSticky, Bool.true_and]
+  rcases h with h | h
+  · rw [if_neg (by simp [h.good])]; exact Or.inl ⟨h.good, h.eof, by simp only; omega, h.short⟩
+  · rw [if_pos (by simp [h.1])]; exact Or.inr h
+
+theorem syncLoop_okOrBad (cfg : Cfg) (sigF : Nat) : ∀ (fuel tmp : Nat) (st : St), OkOrBad st →
+    OkOrBad (syncLoop cfg.asSticky sigF fuel tmp st) := by
+  intro fuel
+  induction fuel with
+  | zero =>
+    intro tmp st h
+    rcases h with h | h
+    · exact Or.inl ⟨h.good, h.eof, h.pos, h.short⟩
+    · exact Or.inr h
+  | succ n ih =>
+    intro tmp st h
+    unfold syncLoop
+    have h1 := sread_okOrBad cfg st 4 h
+    have hfull : (st.sread cfg.asSticky 4).1.length < 4 ∨
+        (StreamOK (st.sread cfg.asSticky 4).2 ∧ 4 ≤ (st.sread cfg.asSticky 4).2.pos) := by
+      unfold St.sread
+      simp only [Cfg.asSticky, Bool.true_and, Bool.not_true, Bool.false_eq_true, and_false, if_false]
+      rcases h with h | h
+      · rw [if_neg (by simp [h.good])]
+        by_cases hl : st.pos + 4 ≤ st.inp.length
+        · rw [if_pos hl]; exact Or.inr ⟨⟨rfl, rfl, hl, h.short⟩, by simp⟩
+        · rw [if_neg hl]; left; simp; omega
+      · rw [if_pos (by simp [h.1])]; left; simp
+    generalize st.sread cfg.asSticky 4 = r at h1 hfull
+    obtain ⟨got, st1⟩ := r
+    simp only at h1 hfull ⊢
+    have keep : ∀ (o : Obj) (hl : Halt), OkOrBad ({ st1 with obj := o, halt := hl } : St) := by
+      intro o hl
+      rcases h1 with h1 | h1
+      · exact Or.inl ⟨h1.good, h1.eof, h1.pos, h1.short⟩
+      · exact Or.inr h1
+    split
+    · exact keep _ _
+    · split
+      · exact keep _ _
+      · next _ h2 =>
+        have hok : StreamOK st1 ∧ 4 ≤ st1.pos := by
+          rcases hfull with hf | hf
+          · simp [hf] at h2
+          · exact hf
+        have hb : ∀ k, k ≤ 3 → OkOrBad (st1.sback k) := fun k hk =>
+          Or.inl ⟨hok.1.good, hok.1.eof, by simp only [St.sback]; have := hok.1.pos; omega, hok.1.short⟩
+        split
+        · exact ih _ _ (hb 3 (by omega))
+        · split
+          · exact ih _ _ (hb 2 (by omega))
+          · split
+            · exact ih _ _ (hb 1 (by omega))
+            · exact ih _ _ (Or.inl hok.1)
+
+theorem exec_okOrBad (cfg : Cfg) : ∀ (s : Stmt) (st : St), OkOrBad st → OkOrBad (s.exec cfg.asSticky st) := by
+  intro s
+  have lift : ∀ (st : St) (o : Obj) (hl : Halt) (ou : Bytes), OkOrBad st → OkOrBad ({ st with obj := o, halt := hl, out := ou } : St) := by
+    intro st o hl ou h
+    rcases h with h | h
+    · exact Or.inl ⟨h.good, h.eof, h.pos, h.short⟩
+    · exact Or.inr h
+  induction s with
+  | skip => intro st h; exact h
+  | seq a b iha ihb =>
+    intro st h
+    simp only [Stmt.exec]
+    split
+    · exact ihb _ (iha st h)
+    · exact iha st h
+  | sync sigF => intro st h; exact syncLoop_okOrBad cfg sigF _ 0 st h
+  | rd f w =>
+    intro st h
+    have h1 := sread_okOrBad cfg st w h
+    simp only [Stmt.exec]
+    generalize st.sread cfg.asSticky w = r at h1
+    obtain ⟨got, st1⟩ := r
+    exact lift st1 _ st1.halt st1.out h1
+  | rdBuf f n =>
+    intro st h
+    simp only [Stmt.exec]
+    split
+    · exact lift st st.obj .oob st.out h
+    · have h1 := sread_okOrBad cfg st (n.eval st.obj) h
+      generalize st.sread cfg.asSticky (n.eval st.obj) = r at h1
+      obtain ⟨got, st1⟩ := r
+      exact lift st1 _ st1.halt st1.out h1
+  | resize f ew n =>
+    intro st h
+    simp only [Stmt.exec]
+    split
+    · exact lift st st.obj .badAlloc st.out h
+    · exact lift st _ st.halt st.out h
+  | seekg n => intro st h; exact sseek_okOrBad cfg st _ h
+  | wr f w => intro st h; exact lift st st.obj st.halt _ h
+  | wrBuf f n =>
+    intro st h
+    simp only [Stmt.exec]
+    split
+    · exact lift st st.obj .oob st.out h
+    · exact lift st st.obj st.halt _ h
+  | skipp n => intro st h; exact lift st st.obj st.halt _ h
+  | assign f e => intro st h; exact lift st _ st.halt st.out h
+  | ite c t e iht ihe => intro st h; simp only [Stmt.exec]; split; exact iht st h; exact ihe st h
+  | ret => intro st h; exact lift st st.obj .ret st.out h
+
+/-- **a run that comes back short on the in-memory stream leaves the sticky stream not good** -/
+theorem exec_sticky_short_not_good (cfg : Cfg) (hs : cfg.sticky = false) (s : Stmt) (st : St) (h : StreamOK st)
+    (hsh : (s.exec cfg st).short = true) : (s.exec cfg.asSticky st).good = false := by
+  have h1 := exec_sticky_short cfg hs s st h
+  rw [hsh] at h1
+  rcases exec_okOrBad cfg s st (Or.inl h) with h2 | h2
+  · rw [h2.short] at h1; cases h1
+  · exact h2.1
+
 end Blf
